@@ -77,6 +77,19 @@ def check_C14(chk):
         owner = L.Suite(1 if k % 2 else 0, children=[t, inner, L.Test(4, body=[("c", 1)])])
         root = L.Suite(0, children=[owner, L.Test(5, body=[("c", 1)])]) if k % 2 else owner
         cases.append((root, rep, "forked")); envs.append({"CGREEN_PER_TEST_TIMEOUT": "1"} if arm == "env" else {})
+    # the body returns in time and the limit runs out during the teardown (the context's AfterEach, or one that comes
+    # with a suite-level fixture): the test is still running after n seconds, so it is stopped and the run fails
+    for k, (mode, arm, rep) in enumerate((("forked", "env", "text"), ("inproc", "env", "text"), (("single", 2), "env", "text"),
+                                          ("forked", "die_in", "cute"), ("inproc", "die_in", "text"), ("forked", "env", "xml"))):
+        body = [("c", 1)]
+        if arm == "die_in":
+            body.insert(0, ("raw", "die_in 1"))
+        t = L.Test(2, body=body, ctx_teardown=True, teardown=[("raw", "sleep 3000" if k % 2 == 0 else "spin")])
+        # model: [AReset; Mark PhBody; the check; Mark PhTeardown]: the process ends inside the teardown
+        t.model_kill = (4, "exit", status)
+        t.model_body = [("c", 1)]
+        root = L.Suite(0, children=[L.Test(1, body=[("c", 1)]), t, L.Test(3, body=[("c", 1)])])
+        cases.append((root, rep, mode)); envs.append({"CGREEN_PER_TEST_TIMEOUT": "1"} if arm == "env" else {})
     # in time: the limit is set and nobody overruns
     for mode in ("forked", "inproc", ("single", 2)):
         root = L.Suite(0, children=[L.Test(1, body=[("c", 1)]), L.Test(2, body=[("c", 1), ("raw", "sleep 50"), ("c", 1)]), L.Test(3, body=[("c", 1)])])
